@@ -323,6 +323,9 @@ class Interp:
             self.eval(st.value, fr)
             return Flow.NORMAL
         if isinstance(st, ast.Assign):
+            for t_ in st.targets:
+                if isinstance(t_, ast.Subscript) and isinstance(t_.value, ast.Name) and _arrayish(fr.env.get(t_.value.id)):
+                    fr.inplace_names.add(t_.value.id)
             v = self.eval(st.value, fr)
             vn = st.value
             if isinstance(vn, (ast.Compare, ast.BoolOp)) or (isinstance(vn, ast.UnaryOp) and isinstance(vn.op, ast.Not)) \
@@ -1270,6 +1273,15 @@ class Interp:
             g_ = self.store_guard()
             fr.env[out_kw[0].value.id] = res if g_ is None else self.join(g_, res, cur)
             fr.inplace_names.add(out_kw[0].value.id)
+            return res
+        out_sub = [k for k in node.keywords if k.arg == "out" and isinstance(k.value, ast.Subscript) and isinstance(k.value.value, ast.Name)]
+        if out_sub and isinstance(f, Ref) and f.name.startswith("numpy."):
+            # ufunc(..., out=x[...]): the result is stored into that part of x
+            kwargs.pop("out")
+            res = self.call(f, args, kwargs, node, fr)
+            self.record("inplace", "out=", [fr.env.get(out_sub[0].value.value.id)], {}, node, {"fresh": getattr(fr.env.get(out_sub[0].value.value.id), "fresh", None)})
+            self.assign(out_sub[0].value, res, fr, node)
+            fr.inplace_names.add(out_sub[0].value.value.id)
             return res
         return self.call(f, args, kwargs, node, fr)
 
